@@ -172,8 +172,8 @@ func (b Bounds) manifestReqs(eco string, l []string) []reqStyle {
 
 // edgeReqs: requirement of a registry package on a transitive package.
 //
-//	npm:   pin a (a in ladder), ^first, ~first; thorough: ^a, ~a for every a
-//	Maven: soft a (a in ladder), "[first,)"; thorough: "[a,)" for every a
+//	npm:   pin a (a in ladder), ^first, ~first; thorough: ^a, ~a for the 3 lowest ladder versions
+//	Maven: soft a (a in ladder), "[first,)"; thorough: "[a,)" for the 3 lowest ladder versions
 func (b Bounds) edgeReqs(eco string) []string {
 	var out []string
 	l := b.Ladder
@@ -187,10 +187,10 @@ func (b Bounds) edgeReqs(eco string) []string {
 	out = append(out, l...)
 	if eco == NPM {
 		if b.Thorough {
-			for _, a := range l {
+			for _, a := range l[:3] {
 				out = append(out, "^"+a)
 			}
-			for _, a := range l {
+			for _, a := range l[:3] {
 				out = append(out, "~"+a)
 			}
 		} else {
@@ -199,7 +199,7 @@ func (b Bounds) edgeReqs(eco string) []string {
 		return out
 	}
 	if b.Thorough {
-		for _, a := range l {
+		for _, a := range l[:3] {
 			out = append(out, "["+a+",)")
 		}
 	} else {
